@@ -3,6 +3,16 @@
 import json, os, re
 ROOT = os.path.dirname(os.path.dirname(os.path.abspath(__file__)))
 NEEDS = {
+ "C01_m3": "concurrent reads (default), a ReadAt/Read buffer that overshoots EOF by at least one whole packet, and the reply of a later chunk handled before the reply of the chunk containing EOF",
+ "C02_m3": "a backlog of pipelined requests nobody reads the replies of, then EOF: the controller picks fini while request registrations are still buffered",
+ "C04_m3": "a request registered before the receiver's broadcast whose write fails after the broadcast (writer closed by the receiver while the caller queues on the write lock)",
+ "C05_m3": "MkdirAll on (or through) a symbolic link to a directory",
+ "C07_m3": "allocator on + a frame whose length field exceeds 256 KiB",
+ "C11_m3": "RequestServer + a handler reader/writer/lister whose own Close() returns an error, then use-after-close, a repeated close, or just the end of the session",
+ "C12_m3": "a server that answers CLOSE with a failure status (or a connection failing during Close), then any further use of the File",
+ "C13_m3": "the sequential ReadFrom path + a failing WRITE chunk + observing or using the File offset afterwards",
+ "C16_m3": "RequestServer + a lister that calls the exported Request API (WithContext) from inside ListAt",
+ "C17_m3": "a setgid entry whose owner-execute and group-execute bits differ (long name of a listing)",
  "C01_m1": "non-zero File offset before the call + the concurrent ReadFrom path (ReadFromWithConcurrency, or UseConcurrentWrites with a sized reader larger than one packet) + a following offset-relative operation",
  "C01_m2": "server allocator enabled + several requests in flight per file, so that a new request arrives while an earlier DATA reply is still being written",
  "C02_m1": "os-backed Server + an unknown extended request pipelined behind a request that has not been answered yet",
